@@ -23,7 +23,7 @@ func intrinsicEffect(name string) (string, bool) {
 	case strings.HasPrefix(name, "(*sync.Mutex)."), strings.HasPrefix(name, "(*sync.RWMutex)."):
 		return "lock", true
 	case strings.HasPrefix(name, repoPfx+"logging."), strings.HasPrefix(name, "math."), strings.HasPrefix(name, "runtime.Gosched"),
-		strings.HasPrefix(name, "time.Sleep"), name == repoPfx+"util.Sleep", strings.HasPrefix(name, "strings."), strings.HasPrefix(name, "strconv."),
+		strings.HasPrefix(name, "strings."), strings.HasPrefix(name, "strconv."),
 		strings.HasPrefix(name, "reflect."), name == "(time.Duration).Nanoseconds", name == "(time.Duration).Milliseconds":
 		return "none", true
 	case strings.HasPrefix(name, "fmt.Sprint"), strings.HasPrefix(name, "fmt.Errorf"), strings.HasPrefix(name, "errors.New"),
@@ -31,6 +31,8 @@ func intrinsicEffect(name string) (string, bool) {
 		return "alloc", true
 	case name == repoPfx+"util.CurrentTimeMillis", name == repoPfx+"util.CurrentTimeNano":
 		return "clock", true
+	case name == "time.Sleep", name == repoPfx+"util.Sleep":
+		return "sleep", true
 	}
 	return "", false
 }
@@ -186,8 +188,14 @@ func (x *Engine) intrinsic(fr *Frame, st *State, name string, callee *ssa.Functi
 			return Val{}, true
 		}
 		return resultVal(sig, x.freshResults(st, sig, "lg")), true
-	case name == "runtime.Gosched", name == "time.Sleep", name == repoPfx+"util.Sleep":
+	case name == "runtime.Gosched":
 		x.abstracted(name + " is a no-op")
+		return Val{}, true
+	case name == "time.Sleep", name == repoPfx+"util.Sleep":
+		// the only effect of a sleep is on the ghost total `slept_ns` (the clock is re-read, non-decreasing, anyway)
+		x.regComp("ghost:slept_ns", "Int")
+		st.h["ghost:slept_ns"] = x.name("slept", "Int", fmt.Sprintf("(+ %s %s)", x.get(st, "ghost:slept_ns"), args[0].T))
+		x.abstracted(name + " only adds its argument to the ghost total slept_ns")
 		return Val{}, true
 	case name == repoPfx+"util.CurrentTimeMillis", name == repoPfx+"util.CurrentTimeNano":
 		g := "ghost:clock_ms"
